@@ -41,6 +41,7 @@ SortEvViol(ev) ==
         (CASE ev.op = "Sort"        -> SortViol(s, W, t, TRUE)
            [] ev.op = "Sort2"       -> SortViol(s, W, t, TRUE) \cup IdempotentViol(s, W, t)
            [] ev.op = "ShapeOrder"  -> SortViol(s, W, t, FALSE)
+           [] ev.op = "SaveRaw"     -> V(N(t) = N(s) /\ W = IdW(N(s)), "RawSaveMovesNoBlock") \cup V(RefsStableBags(s, W, t), "RefsStable")
            [] ev.op = "SortCorrupt" -> {}      \* (C15: corrupt graph; compared with the sorter transcription only)
            [] ev.op = "Optimize"    -> OptimizeViol(s, W, t)
            [] ev.op = "SaveDefault" -> SaveDefaultViol(s, W, t) \cup FileViol(t, ev.file)
